@@ -237,6 +237,23 @@ theorem roundtrip_funcenv (T : Heap) (vf : Def → Bool) (hT : HeapCWF vf T) (fm
     unmarshalEnvWith (fun c d => unmarshalC fu vf c d) c (bs ++ tl) = some (ei, tl, T.slice c c') :=
   ((all_roundtrip T vf hT fm).2.2 fu hfu ei c bs c' tl hc hm).2.2
 
+/-- **No image-only pseudo flag survives in the in-memory fiber**: whatever 32-bit flags word is read from the image, the
+flags `unmarshal_one_fiber` stores (`fiberMemFlags`, used by `unmarshalFiberBody`) have neither `JANET_FIBER_FLAG_HASENV`
+nor `JANET_FIBER_FLAG_HASCHILD` set, and no other bit is touched.  So the copy satisfies the `noEnvBit` / `noChildBit` clauses
+of `FiberWF` again, which is what `roundtrip_code` needs for the *next* generation (copy of the copy). -/
+theorem fiber_flags_no_wire_bits (ff : Int) :
+    hasFlag (fiberMemFlags ff) JanetModel.Gen.MarshCode.fiberHasEnv = false ∧
+    hasFlag (fiberMemFlags ff) JanetModel.Gen.MarshCode.fiberHasChild = false ∧
+    fiberMemFlags ff % JanetModel.Gen.MarshCode.fiberHasChild = ff % JanetModel.Gen.MarshCode.fiberHasChild ∧
+    fiberMemFlags ff / (2 * JanetModel.Gen.MarshCode.fiberHasEnv) = ff / (2 * JanetModel.Gen.MarshCode.fiberHasEnv) := by
+  have h30 : (ff / 1073741824) % 2 = 1 ∨ (ff / 1073741824) % 2 = 0 := by omega
+  have h29 : (ff / 536870912) % 2 = 1 ∨ (ff / 536870912) % 2 = 0 := by omega
+  rcases h30 with a | a <;> rcases h29 with b | b <;>
+    simp [fiberMemFlags, hasFlag, JanetModel.Gen.MarshCode.fiberHasEnv, JanetModel.Gen.MarshCode.fiberHasChild, a, b] <;>
+    omega
+
+example : fiberMemFlags (1073741824 + 536870912 + 5) = 5 := by decide
+
 /-- all three lookup tables of the unmarshaller grow by exactly the numbers the marshaller handed out -/
 theorem code_ids_agree (T : Heap) (vf : Def → Bool) (hT : HeapCWF vf T) (fuel : Nat) (c : Ct) (x : Val)
     (bs : List Nat) (c' : Ct) (tl : List Nat) (hc : c ≤ T.size) (hx : ValWF x) (hm : marshalC fuel T x c = some (bs, c')) :
